@@ -29,10 +29,11 @@ def main():
     sh("git -C /repo worktree remove --force %s" % WT)
     rc, out = sh("git -C /repo worktree add --detach %s HEAD" % WT)
     assert rc == 0, out
-    summary = {}
+    sp = os.path.join(VERIF, "seeded", "SUMMARY.json")
+    summary = json.load(open(sp)) if os.path.exists(sp) else {}
     try:
         for prop in PROPS:
-            for v in "AB":
+            for v in "ABCD":
                 src = os.path.join(SRC, prop, "out", v)
                 sid = "%s-%s" % (prop, v)
                 if only and sid not in only:
